@@ -480,11 +480,17 @@ let run_history (l : n) (cap : n) (mode : string) (k : n) (line : string) : stri
       let parts = String.split_on_char '?' stp in
       let opws = split_ws (List.hd parts) in
       let probes = match parts with [_; p] -> List.map int_of_string (split_ws p) | _ -> [] in
+      let extra = (match opws with
+        | ["nds"; t] -> Some (new_definite_string_op refuse !st (t = "1"))
+        | ["seth"; h; hx] -> Some (set_handle_new refuse !st (nat_of_string h) (bytes_of_hex hx))
+        | ["shorten"; h; n] -> Some (set_handle_shorten !st (nat_of_string h) (n_of_string n))
+        | _ -> None) in
       let is_val = (match opws with "val" :: _ -> true | _ -> false) in
+      let opws = (match extra with Some _ -> ["bc"; "0"] | None -> opws) in
       let opws = if is_val then ["ssize"; List.nth opws 1] else opws in
       let o = parse_op opws in
       describe_mode := (match opws with "desc" :: _ -> true | _ -> false);
-      (match step refuse l !st o !w with
+      (match (match extra with Some m -> m !w | None -> step refuse l !st o !w) with
        | Fault kd -> faulted := true; Buffer.add_string b ("FAULT:" ^ fkind_s kd ^ ";")
        | Ret ((s', ot), w') ->
            st := s'; w := w';
